@@ -53,7 +53,8 @@ def main():
         meta = json.load(open(os.path.join(d, 'meta.json')))
         prop = meta['property']
         fresh_worktree()
-        res = {'id': sid, 'property': prop, 'summary': meta.get('summary', ''), 'needs': meta.get('needs_to_manifest', '')}
+        res = {'id': sid, 'property': prop, 'summary': meta.get('summary', ''), 'needs': meta.get('needs_to_manifest', ''),
+               'outside_statement': meta.get('outside_statement')}
         demo = os.path.join(d, meta.get('demo', 'demo.py'))
         p0 = sh([PY, demo, SCRATCH], timeout=600)
         res['demo_clean_exit'] = p0.returncode
@@ -100,6 +101,9 @@ def main():
             c = r.get('checks', {}).get(r['property'], {})
             others = [k for k, v in r.get('checks', {}).items() if k != r['property'] and v.get('exit') == 1]
             neutral = r.get('demo_patched_exit') == 0 and not r.get('detected')
+            if r.get('outside_statement') and not r.get('detected'):
+                f.write(f"| {r['id']} | {r['property']} | n/a: does not break the statement ({r['outside_statement'][:160]}) | - | {r.get('needs', '')[:200].replace('|', '/')} |\n")
+                continue
             if r.get('error'):
                 f.write(f"| {r['id']} | {r['property']} | ERROR: {r['error'][:80]} | - | - |\n")
                 continue
